@@ -453,7 +453,10 @@ def runTrace (fuel : Nat) : St → List Tok → Nat → Nat → Bool → TraceRe
   | s, [], _, n, bad => .ok s n bad
   | s, t :: ts, i, n, bad =>
     let name := t.role ++ ":" ++ t.site
-    if t.site.startsWith "obs.selfend." then
+    if t.site.startsWith "obs.selfw." then
+      -- the model agrees: nothing is being written (`writing` needs a live loop that set it)
+      if s.writing == false then runTrace fuel s ts (i + 1) n bad else .obsMismatch i name s
+    else if t.site.startsWith "obs.selfend." then
       -- the source ended by itself: Inactive, loop gone, devices released in the model too
       if s.st == .inactive && s.lp == .off && !s.res then runTrace fuel s ts (i + 1) n bad else .obsMismatch i name s
     else if t.site.startsWith "obs.reuse." then
@@ -645,6 +648,20 @@ def chkRpcRestart : List Tok → Nat → Bool → Option String
       else chkRpcRestart ts inflight stopRet
     else chkRpcRestart ts inflight stopRet
 
+/-- implementation only: after the run is over (observed Inactive) something of its writing is left: the writing
+state still Active, or a file writer still installed on some channel.  Token `obs.selfw.<state>.<active>.<writers>`. -/
+def chkSelfW : List Tok → Option String
+  | [] => none
+  | t :: ts =>
+    if t.site.startsWith "obs.selfw." then
+      match (t.site.drop 10).toString.splitOn "." with
+      | [st, a, w] =>
+        if st == "0" && (a != "0" || w != "0") then
+          some s!"C10:self-end-left-writing-active the run is over (source Inactive) but its writing is not: writing state active={a}, channels with a file writer installed={w}"
+        else chkSelfW ts
+      | _ => chkSelfW ts
+    else chkSelfW ts
+
 /-- implementation only: a running hardware-style source whose data stream stopped did not end by itself -/
 def chkSelfEnd : List Tok → Option String
   | [] => none
@@ -685,7 +702,8 @@ def chkHold : List Tok → Option String
 was a Stop ⇒ the source reports Inactive; a Start issued in these schedules (always on a source whose Stops have
 returned) is never refused by `SetStateStarting`. -/
 def chkImplOnly (ln : Line) (toks : List Tok) (calls : List (String × Nat)) (fin : Fin) : Option String :=
-  if (chkSelfEnd toks).isSome then chkSelfEnd toks
+  if (chkSelfW toks).isSome then chkSelfW toks
+  else if (chkSelfEnd toks).isSome then chkSelfEnd toks
   else if (chkReuse toks).isSome then chkReuse toks
   else if (chkHold toks).isSome then chkHold toks
   else if fin.hang != 0 || calls.any (fun c => c.2 == 2) then
